@@ -282,3 +282,78 @@ Proof.
   split; [exact ex_hist_cons|]. split; [apply trace_of_Trace; exact ex_hist_cons|].
   split; vm_compute; reflexivity.
 Qed.
+
+(* ---- which header of a READ request is a read header, and the defaults of the database: the code's tables
+   (gen/SessionTables.v, regenerated from outstation/database/{read,config,mod}.rs, outstation/config.rs and
+   app/gen/{all,count,ranged}.rs on every run; interpretation: Outstation/TablesAgree.v) ------------------------- *)
+From Dnp3V Require Import App.Grammar App.GrammarProofs Outstation.EventBuffer gen.SessionTables Outstation.TablesAgree.
+
+(* ReadHeader::get: for every object header the model's parser can produce (awf_header; groups and variations are
+   bytes), hdr_is_read of Full.v is what the arm of ReadHeader::from_all_objects / from_count / from_range says for
+   the variant the parser's `match v` produces for that function code *)
+Theorem C11_tables_read_header : forall o fc h, awf_header o fc h -> oh_g h < 256 -> oh_v h < 256 ->
+  hdr_is_read h = ta_hdr_is_read fc h.
+Proof. exact tables_read_header. Qed.
+Print Assumptions C11_tables_read_header.
+
+Theorem C11_tables_read_rows_are_qualifier_rows :
+  map (fun r => (fst (fst r), ta_vpat (snd (fst r)))) tb_read_all = map fst qt_all /\
+  map (fun r => (fst (fst r), ta_vpat (snd (fst r)))) tb_read_count = map fst qt_count /\
+  map (fun r => (fst (fst r), ta_vpat (snd (fst r)))) tb_read_range_read = map fst qt_range_read /\
+  map (fun r => (fst (fst r), ta_vpat (snd (fst r)))) tb_read_range_non_read = map fst qt_range.
+Proof. exact tables_read_rows_are_qualifier_rows. Qed.
+Print Assumptions C11_tables_read_rows_are_qualifier_rows.
+
+(* `impl Default for <Point>Config` *)
+Theorem C11_tables_default_pconfig : forall k,
+  map (fun t => ta_pconfig_row (default_pconfig t k)) [TBinary; TDoubleBit; TBos; TCounter; TFrozen; TAnalog; TAos]
+  = [tb_default_binary_input_config; tb_default_double_bit_binary_input_config; tb_default_binary_output_status_config;
+     tb_default_counter_config; tb_default_frozen_counter_config; tb_default_analog_input_config;
+     tb_default_analog_output_status_config]
+  /\ forall t, pc_class (default_pconfig t k) = k.
+Proof. exact tables_default_pconfig. Qed.
+Print Assumptions C11_tables_default_pconfig.
+
+(* ClassZeroConfig::default() *)
+Theorem C11_tables_class_zero_default :
+  map class_zero_default [TBinary; TDoubleBit; TBos; TCounter; TFrozen; TAnalog; TAos; TOctet] = tb_class_zero_default.
+Proof. exact tables_class_zero_default. Qed.
+Print Assumptions C11_tables_class_zero_default.
+
+(* DatabaseHandle::new with OutstationConfig::new's defaults and EventBufferConfig::all_types *)
+Theorem C11_tables_fdb_new : forall F,
+  fdb_new F = db_new tb_default_max_read_request_headers class_zero_default
+                (mkEbCfg (f_evbuf F) (f_evbuf F) (f_evbuf F) (f_evbuf F) (f_evbuf F) (f_evbuf F) (f_evbuf F) (f_evbuf F))
+  /\ (let c := eb_cfg (db_events (fdb_new F)) in
+      [max_bi c; max_dbi c; max_bos c; max_ctr c; max_fctr c; max_ai c; max_aos c; max_oct c]
+      = map (fun a => nth (N.to_nat a) [f_evbuf F] 0) tb_event_buffer_all_types).
+Proof. exact tables_fdb_new. Qed.
+Print Assumptions C11_tables_fdb_new.
+
+(* the capacity of the selection queue and of the deferred read *)
+Theorem C11_tables_read_capacities :
+  DEFAULT_MAX_READ_REQUEST_HEADERS = tb_const_default_max_read_request_headers /\
+  (forall F, sd_cap (db_static (fdb_new F)) = tb_const_default_max_read_request_headers) /\
+  deferred_capacity = N.to_nat (match tb_default_max_read_request_headers with
+                                | Some x => x | None => tb_const_default_max_read_request_headers end).
+Proof. exact tables_read_capacities. Qed.
+Print Assumptions C11_tables_read_capacities.
+
+Theorem C11_tables_unset_config_defaults :
+  nth 0 tb_features_default true = false /\ tb_default_max_read_request_headers = None.
+Proof. exact tables_unset_config_defaults. Qed.
+Print Assumptions C11_tables_unset_config_defaults.
+
+(* the hypotheses are satisfiable: a class poll, a g1v2 range and a g80 range (not a read header) of a READ request *)
+Example C11_tables_instances :
+  ta_hdr_is_read 1 {| oh_g := 60; oh_v := 2; oh_details := HAll; oh_payload := PyNone |} = true /\
+  ta_hdr_is_read 1 {| oh_g := 1; oh_v := 2; oh_details := HRange8 0 3; oh_payload := PyNone |} = true /\
+  ta_hdr_is_read 1 {| oh_g := 80; oh_v := 1; oh_details := HRange8 0 3; oh_payload := PyNone |} = false /\
+  ta_hdr_is_read 2 {| oh_g := 12; oh_v := 1; oh_details := HPrefix8 1; oh_payload := PyNone |} = false /\
+  awf_header {| ao_zero_length_strings := false |} 1 {| oh_g := 60; oh_v := 2; oh_details := HAll; oh_payload := PyNone |} /\
+  (length tb_read_all, length tb_read_count, length tb_read_range_read, length tb_read_range_non_read)
+  = (length qt_all, length qt_count, length qt_range_read, length qt_range).
+Proof.
+  repeat split; try (vm_compute; reflexivity).
+  cbn [oh_g oh_v oh_details]. vm_compute. discriminate.
+Qed.
